@@ -103,6 +103,13 @@ func c11Heap(shape string) []gts.Sequence {
 		ht = append(make(gts.FeatureSlice, 0, len(hostF)+8), hostF...)
 		gt = append(make(gts.FeatureSlice, 0, 8), guestF...)
 		st = append(make(gts.FeatureSlice, 0, 8), sibF...)
+	case "bareguest":
+		// the guest has no features at all (nil table); host and sibling tables with spare capacity
+		ht = append(make(gts.FeatureSlice, 0, len(hostF)+8), hostF...)
+		st = append(make(gts.FeatureSlice, 0, 8), sibF...)
+	case "barehost":
+		gt = append(make(gts.FeatureSlice, 0, 8), guestF...)
+		st = append(gts.FeatureSlice(nil), sibF...)[:2:2]
 	case "sub":
 		all := append(append(append(gts.FeatureSlice{}, hostF...), guestF...), sibF...)
 		all = append(all, make(gts.FeatureSlice, 8)...)
@@ -297,10 +304,10 @@ func init() {
 			if r.Tier == "thorough" {
 				depth = 3
 			}
-			r.Rule = fmt.Sprintf("every program of 1..%d operations (25 operation kinds x their small argument menus; plus every program one step longer over a 12-operation core menu applied to host, guest or the latest result) over a heap that starts with host, guest and a sibling sharing their buffers, each operation applied to any values already in the heap; x 3 residue-buffer shapes (len==cap, spare capacity, sub-slices of one buffer) x 3 feature-table shapes x {BasicSequence, seqio.GenBank}; plus a size dimension (host table padded with 1..70, ~122, ~250, ~506 extra features; host residues along the size ladder up to 20000 quick / 300000 thorough) under every one-step program and 70 two-step programs; invariant on every state: every heap value reads the same as when it entered the heap, and repeating a call gives the same result; distinct key = (shape, program); non-trivial = program touches a shared-buffer shape or has >=2 steps", depth)
+			r.Rule = fmt.Sprintf("every program of 1..%d operations (25 operation kinds x their small argument menus; plus every program one step longer over a 12-operation core menu applied to host, guest or the latest result) over a heap that starts with host, guest and a sibling sharing their buffers, each operation applied to any values already in the heap; x 3 residue-buffer shapes (len==cap, spare capacity, sub-slices of one buffer) x 5 feature-table shapes (incl. a guest / a host without features) x {BasicSequence, seqio.GenBank}; plus a size dimension (host table padded with 1..70, ~122, ~250, ~506 extra features; host residues along the size ladder up to 20000 quick / 300000 thorough) under every one-step program and 70 two-step programs; invariant on every state: every heap value reads the same as when it entered the heap, and repeating a call gives the same result; distinct key = (shape, program); non-trivial = program touches a shared-buffer shape or has >=2 steps", depth)
 			var shapes []string
 			for _, b := range []string{"exact", "spare", "sub"} {
-				for _, t := range []string{"exact", "spare", "sub"} {
+				for _, t := range []string{"exact", "spare", "sub", "bareguest", "barehost"} {
 					for _, k := range []string{"basic", "genbank"} {
 						shapes = append(shapes, b+"/"+t+"/"+k)
 					}
